@@ -688,6 +688,55 @@ def check_copy_site(ck, fn, call):
     ck.ob("E1.extent", key, not problems, "; ".join(problems) if problems else "count matches the array", fn.file, call.get("l"))
 
 
+def check_size_bookkeeping(ck, fn):
+    """E1.size-bookkeeping: the extent recorded in _elements_size for the pod array of a blocked vector is a pod count"""
+    loc = Locals(fn)
+    m = re.search(r",\s*(\d+)>$", fn.cls)
+    bs = int(m.group(1)) if m else None
+    sig = "(%s)" % ",".join(p["n"] for p in fn.params)
+    sites = []
+    for n in fn.nodes():
+        if n.get("k") == "MCall" and n.get("n") == "push_back" and len(n.get("a", [])) == 1:
+            o = strip(n.get("obj") or {})
+            if o.get("k") == "Member" and o.get("n") == "_elements_size":
+                sites.append((n, n["a"][0]))
+        if n.get("k") in ("Assign", "OpCall") and n.get("op") == "=":
+            lhs = n.get("lhs") if n.get("k") == "Assign" else (n.get("a") or [None])[0]
+            rhs = n.get("rhs") if n.get("k") == "Assign" else (n.get("a") or [None, None])[1]
+            l = strip(lhs) if lhs else {}
+            if l.get("k") in ("MCall", "OpCall") and (l.get("n") == "at" or l.get("op") == "[]"):
+                o = strip(l.get("obj") or (l.get("a") or [{}])[0])
+                if o.get("k") == "Member" and o.get("n") == "_elements_size":
+                    sites.append((n, rhs))
+    allocs = [render(strip(c["a"][0])) for c in fn.calls(callee_re=r"MemoryPool::allocate_memory") if c.get("a")]
+    for k, (node, e) in enumerate(sites):
+        key = "%s::%s%s/_elements_size#%d" % (short(fn.cls), fn.name, sig, k)
+        r = loc.resolve(e)
+        a = accessor(loc, e)
+        ok, why = None, ""
+        if a is not None and a["name"] in ("size", "used_elements", "allocated_elements"):
+            blocked_obj = strip_targs(a["cls"]) in BLOCKED_CLASSES
+            if a["persp"] == "pod":
+                ok, why = True, "%s.%s<pod>()" % (a["obj"], a["name"])
+            elif blocked_obj:
+                ok, why = False, "%s.%s<%s>() counts blocks" % (a["obj"], a["name"], a["persp"] or "native")
+            else:
+                ok, why = True, "%s.%s() of a scalar container" % (a["obj"], a["name"])
+        elif r.get("k") == "Bin" and r.get("op") == "*" and bs is not None and any(
+                (const_value(loc, x) is not None and int(const_value(loc, x)) == bs) for x in (r["lhs"], r["rhs"])):
+            ok, why = True, "block count x BlockSize (%s)" % render(r)
+        elif render(strip(e)) in allocs:
+            ok, why = True, "the count the array was allocated with (%s)" % render(strip(e))
+        elif r.get("k") == "Ref" and r.get("dk") == "param":
+            ok, why = False, "the parameter `%s` is a block count (the constructor's sizes are in blocks)" % r.get("n")
+        if ok is None:
+            ck.incomplete("E1.size-bookkeeping", "%s: recorded extent `%s` not understood" % (key, render(e)))
+            continue
+        ck.ob("E1.size-bookkeeping", key, ok,
+              ("records %s" % why) if ok else "records `%s`: %s, but Container::format/_copy_content/serialisation read _elements_size as the number of scalars of the pod array (expected size<Perspective::pod>() = blocks x %s, as the sibling constructors record)" % (render(e), why, bs),
+              fn.file, node.get("l"))
+
+
 def check_dispatch(ck, fn):
     """Arch::X::value* wrappers forward every parameter to the like-named slot of the implementation"""
     struct = strip_targs(fn.cls).rsplit("::", 1)[-1]
@@ -898,6 +947,7 @@ def run(tier):
     ck.rule("E5.alias-branch", "each alias-specialised branch (r==x, x==y, x==z, y==z, ...) equals the general branch after substituting the aliasing condition. Broken for: calls that pass the same vector for two operands (never done by the tests).", 30)
     ck.rule("E1.operands", "Arch call sites of DenseVector/DenseVectorBlocked/SparseVector(Blocked): the array slots carry the receiver and every vector parameter exactly once (receiver in the output slot r), the scalar slot carries the scalar parameter. Broken for: any x != y, alpha != 1.", 65)
     ck.rule("E1.extent", "the extent slot carries the number of entries of the arrays passed: size<P>() for dense, used_elements<P>() for sparse vectors, P = perspective of the arrays (pod arrays with pod extent), of the receiver or an operand asserted equal; set_vec/set_vec_inv copy counts likewise. Broken for: block size > 1 (only 1/BlockSize of the data processed or overrun), sparse vectors with fewer entries than their dimension.", 71)
+    ck.rule("E1.size-bookkeeping", "every extent a DenseVectorBlocked / SparseVectorBlocked constructor, convert, read_from or insertion records in _elements_size for its pod array is a pod count (size<Perspective::pod>(), blocks x BlockSize, or the very count the array was allocated with) - what Container::format/_copy_content iterate over; all sites of a class agree. Broken for: format()/copy() on range views or freshly built blocked vectors with BlockSize > 1 (only 1/BlockSize of the scalars touched).", 17)
     ck.rule("E1.block-guard", "component_copy/component_copy_to guard the block index against the stride they pass to the kernel (0 <= block < BlockSize). Broken for: vectors with fewer blocks than BlockSize (valid index rejected), block >= BlockSize on long vectors (out-of-bounds write accepted).", 4)
     ck.rule("E1.dispatch", "every Arch::X::value / value_blocked / value_to wrapper forwards each of its parameters to the like-named slot of the implementation it selects, on every path. Broken for: all callers of that kernel.", 42)
     ck.rule("E4.map-fold", "TupleVector / PowerVector (recursive and base specialisation): every operation calls the same operation on first() (and rest()), every meta operand projected by the same projection as the receiver, other parameters unchanged and in place, reductions combined by + / Math::max / Math::min, norm2 = sqrt(norm2sqr), set_vec offsets rest by first().size<pod>(). Broken for: any composition with more than one block.", 171)
@@ -969,6 +1019,8 @@ def run(tier):
                 for c in fn.calls(callee_re=ARCH_RE):
                     if c.get("k") == "Call":
                         check_call_site(ck, fn, c)
+                if base in BLOCKED_CLASSES:
+                    check_size_bookkeeping(ck, fn)
                 if fn.name in ("set_vec", "set_vec_inv"):
                     for c in fn.calls(callee_re=r"^FEAT::MemoryPool::copy$"):
                         check_copy_site(ck, fn, c)
